@@ -261,6 +261,11 @@ def finish(out: Outcome, audit: dict, level_note: str = "") -> int:
         "lean_build_cached": bool(audit.get("cached")),
         **out.extra,
     }
+    if proof_broken:
+        # a proof obligation does not check: no proof-level counts are claimed for this run
+        cov.pop("obligations")
+        cov.pop("discharged")
+        cov["proof_broken"] = proof_broken
     ev = {
         "property_id": prop,
         "tier": out.tier,
